@@ -1,5 +1,5 @@
 (* C07 - Authenticator data is laid out byte-for-byte as WebAuthn specifies. *)
-From Ctap Require Import Base Schema Wire Typed Procs Inst Tables ProcTables Finite FramingP WireP LayoutP C18P ObResponseSide FnShapes Shapes ObShapeAuthdata Deps ObDeps.
+From Ctap Require Import Base Schema Wire Typed Procs Inst Tables ProcTables Finite FramingP WireP LayoutP C18P ObResponseSide FnShapes Shapes ObShapeAuthdata Deps ObDeps PlainDecls ObPlainAuthdata.
 Local Open Scope string_scope.
 Local Open Scope Z_scope.
 
@@ -52,6 +52,10 @@ Proof. exact generated_shapes_authdata. Qed.
 Theorem c07_modelled_dependencies_pinned : deps_hold repo_lock_present lock_versions harness_lock_versions cargo_deps = true.
 Proof. exact generated_deps. Qed.
 
+(* the plain structures (no serde meaning of their own) whose member types the model relies on *)
+Theorem c07_plain_structures_unchanged_authdata : plain_hold raw_decls plain_authdata = true.
+Proof. exact generated_plain_authdata. Qed.
+
 Eval vm_compute in "ASSUMPTIONS c07_layout". Print Assumptions c07_layout.
 Eval vm_compute in "ASSUMPTIONS c07_counter_be". Print Assumptions c07_counter_be.
 Eval vm_compute in "ASSUMPTIONS c07_idlen_be". Print Assumptions c07_idlen_be.
@@ -60,3 +64,4 @@ Eval vm_compute in "ASSUMPTIONS c07_spec_consts". Print Assumptions c07_spec_con
 Eval vm_compute in "ASSUMPTIONS c07_generated_conforms". Print Assumptions c07_generated_conforms.
 Eval vm_compute in "ASSUMPTIONS c07_modelled_functions_unchanged_authdata". Print Assumptions c07_modelled_functions_unchanged_authdata.
 Eval vm_compute in "ASSUMPTIONS c07_modelled_dependencies_pinned". Print Assumptions c07_modelled_dependencies_pinned.
+Eval vm_compute in "ASSUMPTIONS c07_plain_structures_unchanged_authdata". Print Assumptions c07_plain_structures_unchanged_authdata.
